@@ -170,7 +170,9 @@ def _pchip_derivatives(
     delta_l, delta_r = delta[:-1], delta[1:]
     h_l, h_r = h[:-1], h[1:]
 
-    mask_same_sign = (delta_l * delta_r) > 0  # excludes zeros + sign changes
+    # compare signs, not the product: delta_l * delta_r underflows to 0 for tiny slopes
+    # (excludes zeros + sign changes)
+    mask_same_sign = (torch.sign(delta_l) * torch.sign(delta_r)) > 0
     # divide only where the mean is used: 1/0 in the masked branch gives NaN gradients
     ones = torch.ones_like(delta_l)
     dh = _weighted_harmonic_mean(
